@@ -96,7 +96,7 @@ CLAIMED["C10"] = {
 CLAIMED["C11"] = {
   "text": "Machine-checked on L8 for every reachable state of every interleaving: closed is sticky (no step resets it); with the current (fixed) shape of poll_signal a non-blocking poll returns Pending only if its readiness callback was consulted during that same call and last answered 'nothing available' (inductive invariant on the re-check program point); a kernel-checked 3-step witness shows the shape before the fix violates this, and the fixed shape answers Closed on the same schedule; the shape flag is regenerated from backend.rs each run. Tied to /repo by the lock-step iterator correspondence with close() threads racing every consumer step, callback-consultation logging, and monitors (sticky flag, store-before-wake in close, Pending implies consulted-false, no consumer left blocked after a completed close).",
   "design_ref": "DESIGN.md section 6 C11 and section 7.1",
-  "note": _IT_NOTE + " The genuine defect found by this check on the original tree was repaired by fix: commit c911cc7 (known_findings.json, fixed). 'Returns after a bounded number of steps after close' is monitored on every explored schedule (scheduler reports a consumer blocked after a completed close); its Lean bound is future work.",
+  "note": _IT_NOTE + " The genuine defect found by this check on the original tree was repaired by fix: commit c911cc7 (known_findings.json, fixed). C11_close_unblocks (Props/C11b.lean, inductive CloseInv): in every reachable state, once close() has returned, the consumer's next step is enabled - it is never left in its blocking callback; the numeric step bound to Closed is monitored on every explored schedule.",
   "technique": "Lean 4 inductive invariant + kernel-checked defect witness + lock-step correspondence",
 }
 
